@@ -28,7 +28,8 @@ def run(ctx, info):
     ctx.add_cover(n_probe, n_probe, "accept / reject outcome of every configuration class on 13 probe values (0, negatives, range ends, huge, inf, -inf, NaN) per numeric field vs the "
                   "recorded table of the pinned tree", ["population_size", "nan"])
     n_api = L.c18_api(ctx)
-    pairs = L.c18_jobs(ctx)
+    from .. import hot
+    pairs = L.c18_jobs(ctx, focus=hot.changed_sources(info))
     obs = L.run_pairs(pairs)
     n = L.c18_decide(ctx, pairs, obs)
     ctx.add_cover(n_api + 2 * n, n_api, "all 84 classes: construct without configuration, optimize() -> ValueError, set_config_parameters(d) vs Config(**d) for the fixture "
